@@ -10,7 +10,7 @@ from ptstat import AnalysisError, algebra
 from ptstat.symval import SymObj, Phi, SymRaise, Builtin, Vec
 from ptstat.symlib import interp_f, vec_f
 from ptstat.world import World, mass_sym, install_class_writes
-from .common import world, eq, fsite, raises, folder, _s
+from .common import world, eq, fsite, raises, folder, _s, constants_lint
 from .C06 import fr, close
 
 EXPLANATION = (
@@ -179,6 +179,8 @@ def _reader(ctx, F):
             prev = e
         if fn[:-4] not in base:
             bad.append((fn, "not an element symbol"))
+    constants_lint(ctx, "R6", ["avogadro_number", "plancks_constant", "speed_of_light", "electron_radius"],
+                   "SLD = r_e N (f1 + i f2) and lambda = h c / E in the documented x-ray equations")
     ctx.unit("nff_files", len(files)); ctx.unit("nff_rows", nrows)
     ctx.check(not bad and len(files) >= 90, "R2",
               "every .nff file: header 'E(eV) f1 f2', three numeric columns, strictly increasing energy, -9999 only in f1, named after an element",
